@@ -142,12 +142,18 @@ def run(ctx):
                 kws = {k.arg: k.value for k in vg[0].keywords}
                 an = A.const_value(kws["argnums"]) if "argnums" in kws else (A.const_value(vg[0].args[1]) if len(vg[0].args) > 1 else 0)
                 params = A.params_of(fo.node)
-                if an == 0 and params and params[0] == "pars":
+                from ..shims import objective_roles
+                roles_ = objective_roles(repo, rel) or {p_: p_ for p_ in params}
+                if isinstance(an, int) and 0 <= an < len(params) and roles_.get(params[an]) == "pars" and an == 0:
                     ctx.holds(r1, site, "value_and_grad(_final_objective, argnums=0) and argument 0 is the free-parameter vector")
                 else:
                     ctx.violated(r1, (rel, "<module>"), vg[0], "jax differentiates with respect to an argument that is not the free-parameter vector", expected="argnums=0 (pars)", found=f"argnums={an}, params={params}", node=vg[0])
             for nm, node in (("_jitted_objective_and_grad", jg), ("_jitted_objective", jn)):
                 kws = {k.arg: k.value for k in node.keywords} if isinstance(node, ast.Call) else {}
+                if isinstance(node, ast.Call) and isinstance(node.func, ast.Name) and isinstance(repo.module(rel).assigns.get(node.func.id), ast.Call):
+                    pre_ = repo.module(rel).assigns[node.func.id]  # `jit_static = functools.partial(jax.jit, static_argnums=...)` shared by both
+                    if A.call_attr(pre_) == "partial" and pre_.args and (A.dotted(pre_.args[0]) or "").endswith("jit"):
+                        kws = {**{k.arg: k.value for k in pre_.keywords}, **kws}
                 sa_node = kws.get("static_argnums")
                 if isinstance(sa_node, ast.Name) and isinstance(repo.module(rel).assigns.get(sa_node.id), ast.AST):
                     sa_node = repo.module(rel).assigns[sa_node.id]  # a module-level constant shared by both jit calls
@@ -157,7 +163,7 @@ def run(ctx):
                     continue
                 sa = (sa,) if isinstance(sa, int) else tuple(sa or ())
                 # in terms of the parameters of _final_objective as defined today: the arrays are traced, everything else is static
-                traced_ = {i_ for i_, p_ in enumerate(params) if p_ in ("pars", "data", "fixed_values")}
+                traced_ = {i_ for i_, p_ in enumerate(params) if roles_.get(p_, p_) in ("pars", "data", "fixed_values")}
                 if len(traced_) == 3 and len(params) == 8 and traced_ != {0, 1, 2}:
                     if set(sa) & traced_:
                         ctx.violated(r1, (rel, "<module>"), node, f"{nm}: a traced argument (pars/data/fixed values) is declared static: its value is baked into the compiled function (stale results, no gradient flow)", expected=f"static_argnums within {sorted(set(range(8)) - traced_)}", found=str(sa), node=node)
